@@ -86,3 +86,12 @@ func (l *LLk) Consume(tt lexer.TokenType) bool {
 	appendNextToken(l)
 	return true
 }
+
+// drain reads whatever the lexer still has to deliver until it closes the
+// channel. The lexer runs in its own goroutine and blocks once the channel
+// is full; a parser that stops before the end of the input has to drain the
+// channel, otherwise that goroutine is never released.
+func (l *LLk) drain() {
+	for range l.c {
+	}
+}
